@@ -698,6 +698,21 @@ def compile (defaultSheet : Text) (items : List (Text × Item)) (names : List (T
     | o => o
   | o => o.map fun _ => {}
 
+/-! ## model.py: `Model.set_cell_value` (by address or by the name of a cell) -/
+
+/-- `set_cell_value(address, value)`: an existing cell keeps its formula and gets the value, a missing
+    cell is created (`XLCell(address, value)`). -/
+def setCellValue (wb : Wb) (address : Text) (v : S) : Out Wb :=
+  let address := match dget wb.names address with
+    | some (.cell a) => a
+    | _ => address
+  match dget wb.cells address with
+  | some cell => .val { wb with cells := dset wb.cells address { cell with value := v } }
+  | none =>
+    match xlCellCheck address with
+    | .val () => .val { wb with cells := dset wb.cells address ⟨v, none⟩ }
+    | _ => .crash .valueError
+
 /-! ## known finding D6: the guard "no MAX_EMPTY truncation" -/
 
 /-- the running counter of consecutive empty cells (row-major, across rows) never exceeds `me` -/
@@ -755,10 +770,20 @@ def cAdd : V → V → V
     | _, .error c => .s (.err c)
   | _, _ => .s (.err .value)
 
+def cSub : V → V → V
+  | .s x, .s y =>
+    match numOfS x, numOfS y with
+    | .ok a, .ok b => .s (.num (.flt (a - b)))
+    | .error c, _ => .s (.err c)
+    | _, .error c => .s (.err c)
+  | _, _ => .s (.err .value)
+
 def cUn : Nat → V → V
   | 0 => cSum
   | _ => cCountA
 
-def cBin : Nat → V → V → V := fun _ => cAdd
+def cBin : Nat → V → V → V
+  | 1 => cSub
+  | _ => cAdd
 
 end XlVerif.Model.C03
